@@ -10,7 +10,7 @@ from typing import Any, Dict, List, Optional, Tuple, Sequence, cast
 import numpy as np
 
 from geostructures._base import (
-    _RE_MULTIPOLYGON_WKT, _RE_MULTIPOINT_WKT,
+    _RE_MULTIPOLYGON_WKT, _RE_MULTIPOINT_WKT, _RE_MULTIPOINT_NESTED_WKT,
     _RE_MULTILINESTRING_WKT, _RE_LINEAR_RING, _RE_LINEAR_RINGS,
     PolygonLikeMixin, MultiShapeBase,
     PointLikeMixin, LineLikeMixin, SimpleShapeMixin
@@ -361,10 +361,17 @@ class MultiGeoPoint(MultiShapeBase, PointLikeMixin, SimpleShapeMixin):
         properties: Optional[Dict] = None
     ) -> 'MultiGeoPoint':
         """Create a GeoPolygon from a wkt string"""
-        if not _RE_MULTIPOINT_WKT.match(wkt_str):
+        if _RE_MULTIPOINT_WKT.match(wkt_str):
+            coords = cls._parse_wkt_linear_ring(wkt_str, _RE_LINEAR_RING.findall(wkt_str)[0])
+        elif _RE_MULTIPOINT_NESTED_WKT.match(wkt_str):
+            # One parenthesised coordinate per point
+            coords = [
+                coord for ring in _RE_LINEAR_RING.findall(wkt_str)
+                for coord in cls._parse_wkt_linear_ring(wkt_str, ring)
+            ]
+        else:
             raise ValueError(f'Invalid WKT MultiPoint: {wkt_str}')
 
-        coords = cls._parse_wkt_linear_ring(wkt_str, _RE_LINEAR_RING.findall(wkt_str)[0])
         shapes = [
             GeoPoint(coord) for coord in coords
         ]
